@@ -15,7 +15,7 @@ ASSUMPTIONS = ["reference integrator: client.get_allowed_scope is the order-pres
 TRUSTED = ["memserver.py reference integrator"]
 
 GRANTS = {  # name -> model kind
-    "implicit": "direct", "password": "direct", "client_credentials": "direct", "jwt_bearer": "direct",
+    "implicit": "direct", "password": "direct", "client_credentials": "direct", "jwt_bearer": "direct", "jwt_bearer_nosub": "direct",
     "authorization_code": "stored", "device_code": "stored", "refresh_token": "refresh",
 }
 GENS = ["bearer", "jwt7523", "jwt9068"]
@@ -56,7 +56,13 @@ def cases(rng, tier):
         n = 4000
     if len(allc) > n:
         allc = rng.sample(allc, n)
-    return allc
+    # the server's supported-scope configuration changed after it had already served a request (e.g. Flask's init_app sets it late):
+    # every request is judged by the configuration in force when it arrives
+    warm = []
+    for c in rng.sample(allc, min(len(allc), 300 if tier == "quick" else 3000)):
+        if c["grant"] in ("client_credentials", "password", "authorization_code", "implicit"):
+            warm.append(dict(c, warmup={"supported": rng.choice([None, ["a", "b", "c", "d", "z"], ["z"]]), "requested": rng.choice(["a", "z", "a b"])}))
+    return allc + warm
 
 
 def model_line(c):
@@ -104,10 +110,14 @@ def _result(c, body):
 
 
 def impl(c):
-    store, srv, rp = ms.build(scopes_supported=c["supported"], oidc=False)
+    w = c.get("warmup")
+    store, srv, rp = ms.build(scopes_supported=w["supported"] if w else c["supported"], oidc=False)
     srv.register_grant(ms.JwtBearerGrant)
     _install_generator(srv, store, c["gen"])
     store.clients["c1"] = Client("c1", "s1", ["https://c1/cb"], c["allowed"], ms.ALL_GRANT_TYPES, ms.ALL_RESPONSE_TYPES)
+    if w:
+        srv.create_token_response(Req("POST", "https://as.example/token", form=dict(grant_type="client_credentials", scope=w["requested"]), headers=ms.basic("c1", "s1")))
+        srv.scopes_supported = c["supported"]
     store.clients["p1"] = Client("p1", "", ["https://p1/cb"], c["allowed"], ms.ALL_GRANT_TYPES, ms.ALL_RESPONSE_TYPES, method="none")
     hdr = ms.basic("c1", "s1")
     grant, rq = c["grant"], c["requested"]
@@ -132,8 +142,8 @@ def impl(c):
     if grant == "client_credentials":
         r = srv.create_token_response(Req("POST", TOK, form=dict(grant_type="client_credentials", **sc), headers=hdr))
         return _result(c, r.body)
-    if grant == "jwt_bearer":
-        a = ms.jwt_bearer_assertion("c1")
+    if grant in ("jwt_bearer", "jwt_bearer_nosub"):
+        a = ms.jwt_bearer_assertion("c1", **({"sub": None} if grant == "jwt_bearer_nosub" else {}))      # an assertion without sub: the client acts for itself
         r = srv.create_token_response(Req("POST", TOK, form=dict(grant_type=ms.JWT_BEARER, assertion=a.decode() if isinstance(a, bytes) else a, **sc)))
         return _result(c, r.body)
     if grant == "authorization_code":
